@@ -68,7 +68,7 @@ def _index_oracle(l, kind, ix):
     if kind == 'int':
         return l[ix]
     if kind == 'slice':
-        return l[slice(ix[0], ix[1])]
+        return l[slice(ix[0], ix[1], ix[2] if len(ix) > 2 else None)]
     if kind == 'mask':
         return [r for r, m in zip(l, ix) if m]
     if kind == 'idx':
@@ -85,7 +85,7 @@ def c_index(ctx, args):
     be, l, kind, ix = args[:4]
     form = args[4] if len(args) > 4 else 'array'
     op = {'int': 'get_int', 'slice': 'get_slice', 'mask': 'get_mask', 'idx': 'get_idx', 'neg': 'list_neg', 'rmul': 'list_rmul', 'weight': 'list_weight'}[kind]
-    ia = {'int': [l, ix], 'slice': [l, ix[0], ix[1]] if kind == 'slice' else None, 'mask': [l, ix, form] if be == 'np' else [l, ix],
+    ia = {'int': [l, ix], 'slice': [l] + list(ix) if kind == 'slice' else None, 'mask': [l, ix, form] if be == 'np' else [l, ix],
           'idx': [l, ix, form] if be == 'np' else [l, ix], 'neg': [l], 'rmul': [ix, l], 'weight': [l]}[kind]
     want = _index_oracle(l, kind, ix)
     try:
@@ -98,6 +98,8 @@ def c_index(ctx, args):
     if kind == 'int':
         return corr(ctx, be, 'get_int', [l, ix])
     if kind == 'slice':
+        if len(ix) > 2 and ix[2] not in (None, 1):
+            return None           # strided / reversed slices: decided by the list-arithmetic oracle above (the model has start/stop slices)
         return corr(ctx, be, 'get_slice', [l, opt(ix[0]), opt(ix[1])], [l, ix[0], ix[1]])
     if kind == 'mask':
         form = args[4] if len(args) > 4 else 'array'
@@ -151,7 +153,7 @@ def run(ctx):
         if kind == 'int':
             ix = rng.randint(-L, L - 1)
         elif kind == 'slice':
-            ix = [rng.choice([None] + list(range(-L - 1, L + 2))), rng.choice([None] + list(range(-L - 1, L + 2)))]
+            ix = [rng.choice([None] + list(range(-L - 1, L + 2))), rng.choice([None] + list(range(-L - 1, L + 2))), rng.choice([None, None, 1, 2, 3, -1, -1, -2, -3] if be == 'np' else [None, 1, 2, 3])]   # torch tensors reject negative steps themselves (ValueError), nothing to decide there
         elif kind == 'mask':
             ix = [rng.randint(0, 1) for _ in range(L)]
         elif kind == 'idx':
